@@ -192,14 +192,14 @@ Qed.
 
 Lemma parse_bad st b st' b' e :
   sparse st b = (st', b', SBad e) ->
-  (exists k, b' = consume k b /\ k <= buf_len b) /\
+  (exists k, b' = consume k b /\ k <= buf_len b /\ cons_need st <= k) /\
   forall fut F fi, 0 < F -> ref_from F st (b_pend b ++ fut) fi = ([], EndBad e).
 Proof.
   destruct st as [|tx u n]; cbn [sparse].
   - destruct (Nat.ltb_spec (buf_len b) 7) as [|H7]; [discriminate|].
     destruct (hdr (firstn 7 (b_pend b))) as [[[tx u] n]|e0] eqn:Eh.
     + intros Hp. exfalso. eapply body_bad; eauto.
-    + intros H; inversion H; subst. split; [exists 7; split; [reflexivity|assumption]|].
+    + intros H; inversion H; subst. split; [exists 7; cbn [cons_need]; repeat split; [assumption|lia]|].
       intros fut F fi HF. cbn [ref_from]. unfold buf_len in H7. apply ref_bad; [assumption|rewrite app_length; lia|].
       rewrite firstn_app_le by lia. exact Eh.
   - intros Hp. exfalso. eapply body_bad; eauto.
@@ -257,11 +257,11 @@ Lemma mbap_some st b st' b' f : wf b -> st_ok st -> mbap_parse st b = (st', b', 
   (forall fut F fi, length (b_pend b ++ fut) < F -> ref_from F st (b_pend b ++ fut) fi = consf f (ref F (b_pend b' ++ fut) fi)).
 Proof. intros Hwf Hst Ep. via_sparse Hwf Hst Ep st b. eapply parse_got; eassumption. Qed.
 Lemma mbap_err st b st' b' e : wf b -> st_ok st -> mbap_parse st b = (st', b', Err e) ->
-  (exists k, b' = consume k b /\ k <= buf_len b) /\
+  (exists k, b' = consume k b /\ k <= buf_len b /\ cons_need st <= k) /\
   (forall fut F fi, 0 < F -> ref_from F st (b_pend b ++ fut) fi = ([], EndBad e)).
 Proof. intros Hwf Hst Ep. via_sparse Hwf Hst Ep st b. eapply parse_bad; eassumption. Qed.
 Lemma mbap_err' st b st' b' e : wf b -> st_ok st -> mbap_parse st b = (st', b', Err e) ->
-  (exists k, b' = consume k b /\ k <= buf_len b) /\
+  (exists k, b' = consume k b /\ k <= buf_len b /\ cons_need st <= k) /\
   (forall fut F fi, length (b_pend b ++ fut) < F -> ref_from F st (b_pend b ++ fut) fi = ([], EndBad e)).
 Proof. intros Hwf Hst Ep. destruct (mbap_err _ _ _ _ _ Hwf Hst Ep) as (Hk & Hr). split; [exact Hk|]. intros fut F fi HF. apply Hr. lia. Qed.
 Lemma mbap_panic st b st' b' : wf b -> st_ok st -> mbap_parse st b <> (st', b', Panic).
@@ -286,6 +286,11 @@ Definition mbap_session_ref n fi F := session_ref pstate PTcp mbap_parse Begin s
   H_mk (fun _ => eq_refl) I (fun _ _ _ => eq_refl) ltac:(cbn; lia) mbap_need_cap stuck_eof
   (fun st b st' b' Hwf _ => mbap_none st b st' b' Hwf) (fun st b st' b' f Hwf _ => mbap_some st b st' b' f Hwf)
   (fun st b st' b' e Hwf _ => mbap_err' st b st' b' e Hwf) (fun st b st' b' Hwf _ => mbap_panic st b st' b' Hwf) n fi F (all_true n).
+Definition mbap_run_total fuel resume b n fi Hwf := run_total pstate PTcp mbap_parse Begin st_ok need cons_need ref ref_from
+  (fun _ => True) I (fun _ _ _ _ => I) (fun _ _ _ => I) (fun _ _ _ => I)
+  H_mk (fun _ => eq_refl) I (fun _ _ _ => eq_refl) ltac:(cbn; lia) mbap_need_cap stuck_eof
+  (fun st b st' b' Hwf _ => mbap_none st b st' b' Hwf) (fun st b st' b' f Hwf _ => mbap_some st b st' b' f Hwf)
+  (fun st b st' b' e Hwf _ => mbap_err' st b st' b' e Hwf) (fun st b st' b' Hwf _ => mbap_panic st b st' b' Hwf) fuel resume b n fi Hwf I (all_true n).
 Definition mbap_nf_no_panic fuel st b n fi Hwf := nf_no_panic pstate PTcp mbap_parse Begin st_ok need cons_need ref ref_from
   (fun _ => True) I (fun _ _ _ _ => I) (fun _ _ _ => I) (fun _ _ _ => I)
   H_mk (fun _ => eq_refl) I (fun _ _ _ => eq_refl) ltac:(cbn; lia) mbap_need_cap stuck_eof
